@@ -41,3 +41,8 @@ impl<T: Copy + std::fmt::Debug> Block for Skip<T> {
         Ok(BlockRet::Again)
     }
 }
+
+#[cfg(rustradio_verif)]
+pub mod verif_access {
+    include!(concat!(env!("RUSTRADIO_VERIF_DIR"), "/access/skip.rs"));
+}
